@@ -290,6 +290,9 @@ pub struct Receiver {
     tx: mpsc::Sender<PortEvt>,
     rx: mpsc::UnboundedReceiver<PortReceiveMsg>,
     receiving: Receiving,
+    /// First chunk of a message that was received by recv_chunk while it was
+    /// streaming the previous, cancelled message.
+    restarted: Option<ReceivedData>,
     credits: ChannelCreditReturner,
     closed: bool,
     finished: bool,
@@ -333,6 +336,7 @@ impl Receiver {
             tx,
             rx,
             receiving: Receiving::Nothing,
+            restarted: None,
             credits,
             closed: false,
             finished: false,
@@ -411,6 +415,11 @@ impl Receiver {
         loop {
             self.credits.return_flush().await;
 
+            // Continue with the message that restarted during the last call.
+            if let Some(data) = self.restarted.take() {
+                self.receiving = Receiving::Chunks { chunks: vec![data.buf].into(), completed: data.last };
+            }
+
             match &mut self.receiving {
                 // Chunks from receive operation started by recv_any available.
                 Receiving::Chunks { chunks, .. } if !chunks.is_empty() => {
@@ -432,8 +441,10 @@ impl Receiver {
                             // First segment without last segment indicates that last transmission
                             // was cancelled.
                             (Receiving::Chunks { .. }, true) => {
-                                self.receiving =
-                                    Receiving::Chunks { chunks: vec![data.buf].into(), completed: data.last };
+                                // Keep the first chunk of the new message for the next call
+                                // to recv_any or recv_chunk.
+                                self.receiving = Receiving::Nothing;
+                                self.restarted = Some(ReceivedData { credit: UsedCredit::none(), ..data });
                                 return Err(RecvChunkError::Cancelled);
                             }
                             // Either continuation or start of transmission.
@@ -482,7 +493,13 @@ impl Receiver {
         loop {
             self.credits.return_flush().await;
 
-            match self.rx.recv().await {
+            // Process the first chunk of a message that restarted during recv_chunk.
+            let msg = match self.restarted.take() {
+                Some(data) => Some(PortReceiveMsg::Data(data)),
+                None => self.rx.recv().await,
+            };
+
+            match msg {
                 // Data message.
                 Some(PortReceiveMsg::Data(data)) => {
                     self.credits.start_return(data.credit, self.remote_port, &self.tx);
